@@ -15,6 +15,7 @@ import (
 	"verif/harness/gen"
 	"verif/harness/refmatch"
 	"verif/harness/scripted"
+	"verif/harness/wirefmt"
 )
 
 func init() { register("C03", checkC03) }
@@ -319,6 +320,13 @@ func checkC03() fw.Check {
 											return gen.WrapError(e.spec.Target, e.local, gen.DestUnreach, code, gen.QuoteBytes(p, 1, "fix"), "min", nil, 0)
 										}
 									}
+									if v.Proto == "syn" && (di+bi)%2 == 1 {
+										// a target (or the firewall in front of it) that refuses the SYN with a bare RST: no ACK flag, no
+										// acknowledgement number - it ends the path like a SYN-ACK does
+										m.destBuild = func(e *simEnv, p *refmatch.Probe) []byte {
+											return gen.TCPReply(e.spec.Target, e.local, e.spec.Port, e.lport, 0, 0, wirefmt.TCPRst, nil, nil, nil)
+										}
+									}
 									if !v.Serial && di == 1 && dist < w.last-1 {
 										// the destination's answer to the first probe that reaches it takes longer than the per-probe
 										// timeout - and still arrives inside the run's listening window (timeout + probes x delay),
@@ -416,6 +424,12 @@ func runC03Request(c *fw.Ctx, id, proto string, first int, skip bool, k int) {
 			a := routerAddr(false, 1, t)
 			if t%2 == 1 {
 				a = netip.AddrFrom4([4]byte{10, 77, byte(fk), byte(t)}) // a private router
+			}
+			if t == dist-1 && skip == (k%2 == 0) && (proto == "icmp" || (proto == "tcp" && method == traceroute.TCPConfigSYN)) {
+				// the hop before the target answers from the TARGET's address (a host that also routes, a load balancer's
+				// virtual address): for ICMP and TCP SYN a time-exceeded proves no arrival - the entry is no destination and not
+				// the last one (for UDP and SACK it would be: C04's table)
+				a = target
 			}
 			m.hops[t] = &hopSpec{addr: a, delay: time.Duration(2+t) * time.Millisecond}
 		}
